@@ -237,7 +237,7 @@ def main():
     n_total = 6000 if thorough else 480
     n_py = 1200 if thorough else 120
     cases = [{"seed": seed(), "idx": i, "python": i < n_py} for i in range(n_total)]
-    res = pmap("vf.checks.c03:run_case", cases, cpu_budget=300)
+    res = pmap("vf.checks.c03:run_case", cases, cpu_budget=30)
     for c, r_ in zip(cases, res):
         if r_["status"] != "ok":
             if r_["status"] in ("crash", "hang"):
